@@ -509,6 +509,11 @@ def run_case(kind, params, ctx):
             ("length-77", prv[:-1]), ("length-79", prv + b"\x00"), ("length-77", pub[:-1]), ("length-79", pub + b"\x07"),
             ("length-0", b""),
         ]
+        # version bytes of OTHER extended-key schemes (SLIP-0132 y/z/Y/Z/u/v/U/V pub+prv, Litecoin, Dogecoin): well-known, well-formed
+        # everywhere else - and not BIP32 versions.  Each with the key kind that scheme would pair it with.
+        for ver_hex, is_pub in OTHER_SCHEME_VERSIONS:
+            body = pub if is_pub else prv
+            muts.append(("other-scheme-version", bytes.fromhex(ver_hex) + body[4:]))
         for cls, payload in muts:
             if rb32.payload_valid(payload):
                 ctx.count("reject.mutation_still_valid")
@@ -540,6 +545,12 @@ def run_case(kind, params, ctx):
                 pass
         return
     raise ValueError(kind)
+
+
+OTHER_SCHEME_VERSIONS = [("049d7cb2", True), ("049d7878", False), ("04b24746", True), ("04b2430c", False), ("0295b43f", True), ("0295b005", False),
+                         ("02aa7ed3", True), ("02aa7a99", False), ("044a5262", True), ("044a4e28", False), ("045f1cf6", True), ("045f18bc", False),
+                         ("024289ef", True), ("024285b5", False), ("02575483", True), ("02575048", False), ("019da462", True), ("019d9cfe", False),
+                         ("02facafd", True), ("02fac398", False), ("0488b21f", True), ("0488ade5", False), ("043587ce", True), ("04358393", False)]
 
 
 def _which_field(a, b):
